@@ -27,7 +27,7 @@ UNITS = [
     unit('push', 'qi_push', r'^cocls::coro_queue::queue_impl::push\(std::__n4861::coroutine_handle<void>\)$'),
     unit('flush', 'qi_flush', FLUSH_RX, loop=True),
     unit('resume', 'cq_resume', r'^cocls::coro_queue::resume\(std::__n4861::coroutine_handle<void>\)$', **WITH_FLUSH),
-    unit('install_resume', 'cq_install_resume', r'^cocls::coro_queue::install_queue_and_resume\(std::__n4861::coroutine_handle<void>\)$', **WITH_FLUSH),
+    unit('install_resume', 'cq_install_resume', r'^cocls::coro_queue::install_queue_and_resume\(std::__n4861::coroutine_handle<void>\)$', replay=dict(src='c05_nested_queue.cpp', flags=['-O1', '-g']), **WITH_FLUSH),
     unit('swap', 'cq_swap', r'^cocls::coro_queue::swap_coroutine\(std::__n4861::coroutine_handle<void>\)$'),
     unit('pause', 'pause_suspend', r'^cocls::pause::await_suspend\(std::__n4861::coroutine_handle<void>\)$', extra_types={'PAUSE_T': 'cocls::pause'}),
     unit('next', 'cq_next', r'^cocls::coro_queue::resume_handle_next\(\)$'),
@@ -59,6 +59,16 @@ def _c04(names):
             v = _copy5.deepcopy(x); v['name'] = 'C04_' + x['name']; out.append(v)
     return out
 UNITS += _c04(['fa_await_suspend'])
+
+# async<int>::start() in coroutine mode (nested activation of the child) - see start_spec.h; driver of C04
+START_LAM_RX = r'^auto cocls::async<int>::start\(\)::\{lambda\(auto:1\)#1\}::operator\(\)<cocls::promise<int> >\(cocls::promise<int>\) const$'
+UNITS.append(dict(name='start_nested', driver='c04_async.cpp', roots=[START_LAM_RX], names={'as_start_lambda': START_LAM_RX},
+    names_opt={'as_start_promise_stub': r'^cocls::async<int>::start_promise\(cocls::promise<int>&\)$', 'cq_install_resume_stub': r'^cocls::coro_queue::install_queue_and_resume\('},
+    types=dict(TYPES, PROM='cocls::promise<int>'), ptypes={'START_LAM': START_LAM_RX + '#0'}, globals=GLOBALS,
+    boundary=BOUNDARY + [r'^cocls::async<int>::start_promise\(cocls::promise<int>&\)$', r'^cocls::coro_queue::install_queue_and_resume\('], lib=LIBS,
+    spec=['C05/q_spec.h', 'C05/start_spec.h'], harness='h_start_lambda', enforce='as_start_lambda', defines=['CV_QUEUE_INSTANCE_PTR QINST'],
+    under_contract=['cocls::async<int>::start()::{lambda(auto:1)#1}::operator()(cocls::promise<int>) const'],
+    replay=dict(src='c05_start_nested.cpp', flags=['-O1', '-g'])))
 
 META = dict(
     level='proof',
